@@ -61,6 +61,13 @@ func Corpus() []Scenario {
 			sel(0, 0), sel(1, 0), app(0, 0), app(0, 0), drain(1), cmd(1, "noop"), cmd(1, "probe"),
 			store(0, []int{2}, "add", false, 1), cmd(0, "expunge"), drain(1), cmd(1, "search"),
 			{Kind: "cmd", S: 1, Cmd: "status", Mb: 1}, cmd(1, "probe"), qs(1)}},
+		{Name: "forward-flags-complete-in-database", K: 2, Ops: []Op{ // STORE ($Forwarded) means $Forwarded and Forwarded, in the database too
+			sel(0, 0), sel(1, 0), app(0, 0), app(0, 0), drain(1), cmd(1, "noop"),
+			store(0, []int{1}, "set", false, 6), store(0, []int{2}, "add", false, 7, 4), drain(1), qs(1), qs(0),
+			store(0, []int{1}, "rem", false, 7), drain(1), qs(1), qs(0)}},
+		{Name: "connector-delete-of-message-in-two-mailboxes", K: 2, Ops: []Op{ // every mailbox that held the message gets its EXPUNGE
+			sel(0, 0), sel(1, 1), app(0, 0), app(0, 0), cp(0, []int{1, 2}, 1), drain(1), cmd(1, "noop"), cmd(1, "probe"),
+			{Kind: "conn", Cmd: "delete", Msg: 1}, drain(0), drain(1), qs(0), qs(1)}},
 		{Name: "idle-bulk", K: 2, Bulk: true, Ops: []Op{
 			sel(0, 0), sel(1, 0), cmd(1, "idle"), app(0, 0), app(0, 0, 2), drain(1), store(0, []int{1}, "add", false, 3), drain(1),
 			cmd(1, "done"), cmd(1, "probe")}},
